@@ -532,6 +532,16 @@ pub fn run(r: &Report) {
                 sjobs.push((i, true, off, bit));
             }
         }
+        // manifest flips only where the intact manifest describes the complete directory (a log that
+        // ends with an empty, freshly created segment has a stale segment count to begin with)
+        let manifest_current = with_dir(|dir| {
+            img.materialise_over(dir);
+            validate_filesystem_manifest(dir).is_ok()
+        });
+        if !manifest_current {
+            r.outcome("mseg.manifest-flips-skipped:intact-manifest-is-stale");
+            continue;
+        }
         for off in 0..img.manifest.as_ref().map_or(0, |l| l.len()) {
             for bit in 0..8u8 {
                 sjobs.push((i, false, off, bit));
